@@ -15,11 +15,23 @@ dist rel=0|1 axes=PL p=PL                            → P             (to_dista
 filter res=<bits> pts=<P,…>                          → <P,…>         (_filter_segments)
 estlen n=<int> a=P d=P e=P                           → <bits>        (estimate_length of θ ↦ a + θ·d + θ²·e)
 param res=<bits> len=<bits> a=P d=P e=P              → ValueError | <P,…>   (parametric: the points handed to `move`)
-shape kind=arc|circle|helix|thread|spiral cw=0|1 rel=0|1 pos=PL res=<bits> target=PL tlen=<n> center=PL turns=<int>
-      pitch=<bits> th=<bits,…>
+shape kind=arc|arc_radius|circle|helix|thread|spiral cw=0|1 rel=0|1 pos=PL res=<bits> target=PL tlen=<n> center=PL
+      turns=<int> pitch=<bits> radius=<bits> th=<bits,…>
       → ValueError | L=<bits> pts=<P,…> np=<number of vertices of the whole path | E>
-        (`…_args`: the length and the path function at the given thetas; `np` from the whole-path function)
+        (`…_args`: the length and the path function at the given thetas; `np` from the whole-path function;
+         `np.copysign` is `copysignF` of `Drv/Tracer.lean`)
+poly rel=0|1 axes=PL pts=<PL,…>                      → <P,…>         (polyline: the points handed to `move`)
+pmoves rel=0|1 axes=PL res=<bits> len=<bits> a=P d=P e=P
+                                                     → ValueError | <P,…>   (parametric, the whole method: the points handed to `move`)
+controls rel=0|1 axes=PL pts=<PL,…>                  → ValueError | grid=<bits,…> controls=<P,…>
+        (spline up to its final call, run with a `CubicSpline` that hands back what it was given: the `thetas` grid and
+         the three coordinate lists)
+spline rel=0|1 axes=PL res=<bits> pts=<PL,…>         → ValueError | <P,…>
+        (spline, the whole method, with the stand-in `CubicSpline(x, y)(θ) = y[0] + θ·(y[-1] − y[0]) + θ²·(y[1] − y[0])/8`
+         the harness installs in the real module too: the points handed to `move`)
 ```
+`move` is given the effect the builder tie establishes: the position becomes `to_absolute(p)` (the translated
+`GCodeCore.to_absolute`, so relative offsets accumulate with the same additions as in the real builder).
 -/
 open GscribModel GscribModel.Proto
 namespace GscribModel.TracerSrcDrv
@@ -39,6 +51,23 @@ def quadOf (ws : List String) : Option (Float → V3 Float) := do
   let e ← (field ws "e").bind (parse3 parseF)
   pure (quad a d e)
 
+/-- `self._g.position` after `self._g.move(p)`: `_transform_move` computes `target_axes = self.to_absolute(p)`,
+    `_update_axes` stores it -/
+def moveF (rel : Bool) (pos : PL Float) (w : V3 Float) : PL Float := V3.toPL (GCodeCore.to_absolute rel pos (V3.toPL w))
+
+/-- a `CubicSpline` that hands back its arguments: `θ = -1` ↦ `len(y)`, `θ = i` ↦ `y[i]`, `θ = 1000 + i` ↦ `x[i]` -/
+def probeSpline (xs ys : List Float) (θ : Float) : Float :=
+  if θ < 0 then Float.ofNat ys.length
+  else if θ ≥ 1000 then xs.getD (θ - 1000).toUInt64.toNat 0
+  else ys.getD θ.toUInt64.toNat 0
+
+/-- the stand-in spline of the whole-path comparison (numpy evaluation order: `a + th*d + th*th*e`) -/
+def quadSpline (_ ys : List Float) (θ : Float) : Float :=
+  let a := ys.getD 0 0
+  let d := ys.getLast?.getD 0 - a
+  let e := (ys.getD 1 0 - a) * 0.125
+  a + θ * d + θ * θ * e
+
 def shapeLine (ws : List String) : Option String := do
   let kind ← field ws "kind"
   let cw := flag ws "cw"
@@ -51,11 +80,15 @@ def shapeLine (ws : List String) : Option String := do
   let center := (field ws "center").bind (parsePL parseF)
   let turns := (field ws "turns").bind String.toInt?
   let pitch := (field ws "pitch").bind parseF
+  let radius := (field ws "radius").bind parseF
   let T := floatTrig
   let (args, path) ← match kind with
     | "arc" => do
       pure (PathTracer.arc_args T cw rel pos res (← target) (← tlen) (← center),
             PathTracer.arc T cw rel pos res (← target) (← tlen) (← center))
+    | "arc_radius" => do
+      pure (PathTracer.arc_radius_args copysignF T cw rel pos res (← target) (← tlen) (← radius),
+            PathTracer.arc_radius copysignF T cw rel pos res (← target) (← tlen) (← radius))
     | "circle" => do
       pure (PathTracer.circle_args T cw rel pos res (← center), PathTracer.circle T cw rel pos res (← center))
     | "helix" => do
@@ -111,6 +144,39 @@ def handle (line : String) : String :=
       | none => pure "ValueError"
       | some ps => pure (pts3 ps)
     | "shape" :: ws => shapeLine ws
+    | "poly" :: ws => do
+      let rel := flag ws "rel"
+      let axes ← (field ws "axes").bind (parsePL parseF)
+      let pts ← (field ws "pts").bind (parseList (parsePL parseF))
+      pure (pts3 (PathTracer.polyline_moves (moveF rel) T false rel axes 1 pts))
+    | "pmoves" :: ws => do
+      let rel := flag ws "rel"
+      let axes ← (field ws "axes").bind (parsePL parseF)
+      let res ← (field ws "res").bind parseF
+      let len ← (field ws "len").bind parseF
+      let f ← quadOf ws
+      match PathTracer.parametric_moves (moveF rel) T false rel axes res f len with
+      | none => pure "ValueError"
+      | some ps => pure (pts3 ps)
+    | "controls" :: ws => do
+      let rel := flag ws "rel"
+      let axes ← (field ws "axes").bind (parsePL parseF)
+      let pts ← (field ws "pts").bind (parseList (parsePL parseF))
+      match PathTracer.spline_args probeSpline T false rel axes 1 pts with
+      | none => pure "ValueError"
+      | some (f, _) =>
+        let n := (f (-1)).x.toUInt64.toNat
+        let idx := List.range n
+        pure ("grid=" ++ ",".intercalate (idx.map fun i => showF (f (Float.ofNat (1000 + i))).x)
+          ++ " controls=" ++ pts3 (idx.map fun i => f (Float.ofNat i)))
+    | "spline" :: ws => do
+      let rel := flag ws "rel"
+      let axes ← (field ws "axes").bind (parsePL parseF)
+      let res ← (field ws "res").bind parseF
+      let pts ← (field ws "pts").bind (parseList (parsePL parseF))
+      match PathTracer.spline_moves quadSpline (moveF rel) T false rel axes res pts with
+      | none => pure "ValueError"
+      | some ps => pure (pts3 ps)
     | _ => none
   r.getD ("bad-op " ++ (line.take 80).toString)
 
